@@ -45,6 +45,31 @@ def run(ctx):
                           dict(kind="c10", cases=x.get("case"), expected=x.get("expected"), observed=x.get("observed")))
         elif len(ctx.samples) < 5:
             ctx.samples.append(dict(id=x["id"], coords=x.get("expected"), detail=x.get("detail")))
+    # sessions: decoded proofs are values (ProofSession.tla): destinations reused, results kept by value, checked after later decodes
+    scfg = 'SPECIFICATION Spec\nCONSTANTS Dests = {"x", "y"}\nDocs = {"p", "q", "r"}\nMaxOps = %d\nReuse = %s\nINVARIANTS ValueSemantics%s\nCHECK_DEADLOCK FALSE\n'
+    ctx.tlc("ProofSession", scfg % (5 if ctx.quick else 6, "FALSE", "") + "VIEW NoHistView\n", label="ProofSession mc", timeout=900)
+    ctx.expect_mutant_violates("ProofSession", scfg % (5, "TRUE", "") + "VIEW NoHistView\n", "ProofSession mutant Reuse (decode into the object the destination already holds)")
+    rs = ctx.tlc("ProofSession", scfg % (7, "FALSE", " Export"), simulate="num=%d" % (300 if ctx.quick else 3000), depth=8, workers=4, label="ProofSession behaviours", timeout=900)
+    sess, seen = [], set()
+    for t in rs["traces"]:
+        k = json.dumps(t, sort_keys=True)
+        ops = [o["op"] for o in t]
+        # worth replaying: something kept, a later decode, then a check
+        if k in seen or "keep" not in ops or "check" not in ops[ops.index("keep"):] or "decode" not in ops[ops.index("keep"):]:
+            continue
+        seen.add(k)
+        sess.append(t)
+    must = [[dict(op="decode", dest="x", doc="p"), dict(op="keep", dest="x"), dict(op="decode", dest="x", doc="q"), dict(op="check", kept=1, doc="p")],
+            [dict(op="decode", dest="x", doc="p"), dict(op="assign", dest="x", to="y"), dict(op="decode", dest="x", doc="q"), dict(op="keep", dest="y"), dict(op="decode", dest="y", doc="r"), dict(op="check", kept=1, doc="p")]]
+    sess = must + sess[:40 if ctx.quick else 400]
+    sres = ctx.run_vh(["c10-session"], dict(behaviours=sess, docs=["p", "q", "r"]), timeout=1800)
+    if len(sres) != len(sess):
+        raise Infra("c10-session returned %d results for %d behaviours" % (len(sres), len(sess)))
+    for x in sres:
+        if not x["ok"]:
+            ctx.violation("proof JSON codec disagrees with ProofSession.tla: %s: %s" % (x["id"], x.get("detail")), dict(kind="c10-session", cases=x.get("case")))
+    realized += len(sess)
+    ctx.cov["sessions"] = len(sess)
     ctx.traces_validated = realized
     ctx.evaluations = len(res)
     ctx.cov["real_proofs"] = nreal
@@ -56,6 +81,11 @@ def run(ctx):
 def replay(ctx, path):
     case = json.load(open(path))
     c = case["cases"]
+    if case.get("kind") == "c10-session":
+        bad = [x for x in ctx.run_vh(["c10-session"], c, timeout=1800) if not x["ok"]]
+        for x in bad:
+            print("REPRODUCED:", json.dumps(x)[:600])
+        return 1 if bad else 0
     c.setdefault("vectors", [])
     c.setdefault("real", 0)
     res = ctx.run_vh(["c10"], c, timeout=3000)
